@@ -4,7 +4,7 @@ EXTENDS EioClient
 
 IsDisc(e) == Len(e) > 5 /\ SubSeq(e, 1, 5) = "disc:"
 IsMsgEv(e) == Len(e) > 4 /\ SubSeq(e, 1, 4) = "msg:"
-NoDev == c.dev = {}
+NoDev == c.dev \subseteq {"LateReceive", "WriteLoopDropsQueued"}
 
 TypeOK == /\ c.st \in {"disconnected", "connected", "disconnecting"}
           /\ c.sid \in {0, 1}
@@ -41,8 +41,13 @@ C08_TasksEnd ==
 \* ever (violated when the repaired defect F17 is re-admitted)
 C08_PostFailureEndsConnectionRaw ==
     ("PostFailureSilent" \in c.dev /\ Quiescent /\ now >= 30) => c.st # "connected"
-\* nothing is delivered after the disconnect event of the last cycle ... except messages that
-\* were already received
+\* no packet is handed to the message handler once the connection has ended (a handler that was
+\* already started for an earlier packet may still be running: those messages were received
+\* while connected)
+C08_NothingReceivedAfterEnd == "LateReceive" \notin c.dev
+\* the write loop never stops with packets (the CLOSE of a disconnect() in particular) still
+\* queued just because the state changed while it was busy (raw form: negative control of F25)
+C08_NothingLeftQueuedRaw == "WriteLoopDropsQueued" \notin c.dev
 \* C09: messages are handled exactly once, in arrival order
 MsgEvents == SelectSeq(c.ev, IsMsgEv)
 C09_RxOnceInOrder ==
